@@ -38,6 +38,10 @@ const (
 	clsTaskLostLater     = "C19/stage-task-abandoned-by-pool"
 	clsNextTwice         = "C19/stage-next-stages-planned-more-than-once"
 	clsLostEarly         = "C19/error-lost/callback-before-failing-stage-finished"
+	// a stage panicked while the state machine registered it (Identifier() panics / typed nil stage): pending was
+	// incremented, nobody completes the stage
+	clsHangRegInline = "C19/no-completion/panic-while-stage-is-registered"
+	clsHangRegPooled = "C19/no-completion/panic-while-stage-is-registered-under-async-parent"
 )
 
 type viol struct {
@@ -69,8 +73,11 @@ type stageFacts struct {
 	lost          bool
 	rejected      bool
 	abandoned     bool
-	planned       int // number of stages NextStages() returned (all calls)
-	nextCalls     int // calls of NextStages()
+	regPanic      bool   // the stage panicked while it was being registered (Identifier() called by the state machine)
+	regPanicKind  string // identifier | typed-nil
+	typedNil      bool   // handed to the pipeline as a typed nil pointer
+	planned       int    // number of stages NextStages() returned (all calls)
+	nextCalls     int    // calls of NextStages()
 }
 
 // judge is the trace specification of C19 for one executed tree.
@@ -124,6 +131,23 @@ func judge(out *caseOutcome) (vs []viol, facts map[string]int) {
 		case evPlanPanic:
 			f.planPanic = true
 			f.fail(e.Seq, "panic", fmt.Sprintf("c19-fail-s%d-plan", specID(e.Stage)))
+			if firstPanic < 0 {
+				firstPanic = e.Seq
+			}
+		case evTypedNil:
+			f.typedNil = true
+		case evRegPanic:
+			// Identifier() is called by the state machine's executeStage after it incremented pending: the stage is registered
+			if f.registered < 0 {
+				f.registered = e.Seq
+			}
+			f.regPanic = true
+			f.regPanicKind = e.Info
+			tok := fmt.Sprintf("c19-fail-s%d-ident", specID(e.Stage))
+			if e.Info == "typed-nil" {
+				tok = "nil pointer dereference"
+			}
+			f.fail(e.Seq, "panic", tok)
 			if firstPanic < 0 {
 				firstPanic = e.Seq
 			}
@@ -324,6 +348,70 @@ func judge(out *caseOutcome) (vs []viol, facts map[string]int) {
 			facts["nil_plan_stage_completed_before_another_stage_failed"]++
 		}
 	}
+	// coverage facts: stages that panicked while they were being registered, by kind, position and what else was going on
+	for _, id := range ids {
+		f := st[id]
+		if f.typedNil {
+			facts["typed_nil_stages_handed_to_pipeline"]++
+		}
+		if !f.regPanic {
+			continue
+		}
+		facts["reg_panic_stages"]++
+		if f.regPanicKind == "typed-nil" {
+			facts["reg_panic_typed_nil_stage"]++
+		} else {
+			facts["reg_panic_identifier_panics"]++
+		}
+		depth := 0
+		for p := parentOf(out.Spec, specID(id)); p != nil; p = parentOf(out.Spec, p.ID) {
+			depth++
+		}
+		switch depth {
+		case 0:
+			facts["reg_panic_root_stage"]++
+		case 1:
+			facts["reg_panic_child_stage"]++
+		default:
+			facts["reg_panic_grandchild_or_deeper"]++
+		}
+		pooled := hasAsyncAncestor(out.Spec, id, st)
+		if pooled {
+			facts["reg_panic_below_pooled_stage"]++
+		} else {
+			facts["reg_panic_on_callers_goroutine"]++
+		}
+		// other stages that were registered and not completed by the state machine when the panic was raised, apart from
+		// the ancestors (which are unwound by it)
+		anc := map[int]bool{}
+		for p := parentOf(out.Spec, specID(id)); p != nil; p = parentOf(out.Spec, p.ID) {
+			anc[p.ID] = true
+		}
+		busy := false
+		for _, oid := range ids {
+			o := st[oid]
+			if oid == id || o.registered < 0 || o.registered > f.failSeq || anc[specID(oid)] {
+				continue
+			}
+			if len(o.hooks) == 0 || o.hooks[0] > f.failSeq {
+				busy = true
+			}
+		}
+		if busy {
+			if pooled {
+				facts["reg_panic_below_pooled_stage_while_other_stage_unfinished"]++
+			} else {
+				facts["reg_panic_on_callers_goroutine_while_other_stage_unfinished"]++
+			}
+		}
+		if len(callbacks) > 0 && !callbacks[0].NoErr && callbacks[0].Seq > f.failSeq {
+			if pooled {
+				facts["reg_panic_below_pooled_stage_then_completed_with_error"]++
+			} else {
+				facts["reg_panic_on_callers_goroutine_then_completed_with_error"]++
+			}
+		}
+	}
 	if cancelSeq >= 0 {
 		facts["runs_with_context_cancelled"] = 1
 		for _, id := range ids {
@@ -361,6 +449,7 @@ func judge(out *caseOutcome) (vs []viol, facts map[string]int) {
 		// zero times, decided logically: all runners returned, all operators ended, the pools' counters are idle and Pool.Stop() returned
 		var unfinished []int
 		syncOrigin, planOrigin, lostTask, unexplained, abandoned := []int{}, []int{}, []int{}, []int{}, []int{}
+		regInline, regPooled := []int{}, []int{}
 		for _, id := range ids {
 			f := st[id]
 			if f.registered < 0 || len(f.hooks) > 0 {
@@ -369,6 +458,10 @@ func judge(out *caseOutcome) (vs []viol, facts map[string]int) {
 			unfinished = append(unfinished, id)
 			pooled := hasAsyncAncestor(out.Spec, id, st)
 			switch {
+			case f.regPanic && pooled:
+				regPooled = append(regPooled, id)
+			case f.regPanic:
+				regInline = append(regInline, id)
 			case f.planPanic && pooled:
 				planOrigin = append(planOrigin, id)
 			case !f.async && f.execUnwound && pooled && recoveredByPool(out, id):
@@ -397,6 +490,14 @@ func judge(out *caseOutcome) (vs []viol, facts map[string]int) {
 		case len(lostTask) > 0:
 			add(clsHangLostTask, "callback never invoked; the context of the pooled stages was cancelled at t=%d, the stages %v were then handed to their pool, "+
 				"which counted them as rejected and dropped them without calling any handler: they stay pending forever; %s", cancelSeq, stageNames(lostTask), detail)
+		case len(regInline) > 0:
+			add(clsHangRegInline, "callback never invoked; stages %v panicked (%s) while the state machine was registering them (pending already incremented, Plan() never reached) "+
+				"on the goroutine that called pipeline.Execute: pipeline.Execute returned without completing the pipeline and nothing ever completes the registered stage; %s",
+				stageNames(regInline), regKinds(st, regInline), detail)
+		case len(regPooled) > 0:
+			add(clsHangRegPooled, "callback never invoked; stages %v panicked (%s) while the state machine was registering them (pending already incremented, Plan() never reached) "+
+				"in the completion handler of a stage that runs on a pool: the pool reported the panic as the pooled stage's failure, the registered stage is never completed; %s",
+				stageNames(regPooled), regKinds(st, regPooled), detail)
 		case len(syncOrigin) > 0:
 			add(clsHangSyncPanic, "callback never invoked; inline (sync) stages %v panicked below a stage that runs on a pool: "+
 				"the pool reported the panic as the pooled stage's failure, the inline stages stay pending forever; %s", stageNames(syncOrigin), detail)
@@ -694,4 +795,17 @@ func handlerCalls(f *stageFacts) string {
 		parts = append(parts, fmt.Sprintf("%s at t=%d on g%d", e.Info, e.Seq, e.G))
 	}
 	return strings.Join(parts, ", ")
+}
+
+// regKinds tells how the stages panicked while they were being registered.
+func regKinds(st map[int]*stageFacts, ids []int) string {
+	var parts []string
+	for _, id := range ids {
+		if st[id].regPanicKind == "typed-nil" {
+			parts = append(parts, stageName(id)+": typed nil stage pointer, Identifier() dereferenced it")
+		} else {
+			parts = append(parts, stageName(id)+": Identifier() panicked")
+		}
+	}
+	return strings.Join(parts, "; ")
 }
